@@ -1,7 +1,7 @@
 #!/bin/sh
 # usage: tools/confirm_mut.sh <mutdir with patch.diff demo_test.go> <package dir relative to repo>
 # confirms: demo passes on the unchanged tree, fails with the patch, and the package's own tests pass with the patch
-D="$1"; PKG="$2"
+D="$(readlink -f "$1")"; PKG="$2"
 WT=/tmp/wt_conf_$$
 export GOFLAGS=-mod=mod GOPROXY=off GOSUMDB=off
 git -C /repo worktree add --detach "$WT" HEAD >/dev/null 2>&1 || exit 3
